@@ -31,34 +31,43 @@ def plan(tier, seed):
     return [{"n": 1200 if tier == "quick" else 5000} for _ in range(n)]
 
 
+class _B(dict):
+    """A branch the projection creates (as opposed to a selected value)."""
+
+
 def expected(doc, base_parts, sels, style):
-    """sels: [(relparts, value)] in selection order."""
+    """sels: [(relparts, value)] in selection order.  Selections are written in order: a
+    selected node replaces whatever is at its location; a node below an already selected
+    ancestor is already present inside that ancestor's value."""
     if style == "FLAT":
         return [v for _, v in sels]
-    tree = {}
+    tree = _B()
     for rel, v in sels:
         parts = (tuple(base_parts) + tuple(rel)) if style == "ROOT" else tuple(rel)
         cur = tree
+        inside_value = False
         for p in parts[:-1]:
-            cur = cur.setdefault(("n", p), {})
-        cur[("v", parts[-1])] = v
+            if p not in cur:
+                cur[p] = _B()
+            cur = cur[p]
+            if not isinstance(cur, _B):
+                inside_value = True
+                break
+        if not inside_value:
+            cur[parts[-1]] = ("value", v)
     origin = doc if style == "ROOT" else walk(doc, base_parts)
 
     def build(node, here):
-        # node: dict of ("n"|"v", key) -> subtree|value ; here: the document value at this location
-        keys = []
-        for (_kind, k) in node:
-            if k not in keys:
-                keys.append(k)
+        keys = list(node)
         if isinstance(here, list):
             keys = sorted(keys)
-            return [item(node, k, here[k]) for k in keys]
-        return {k: item(node, k, here[k]) for k in keys}
+            return [item(node[k], here[k]) for k in keys]
+        return {k: item(node[k], here[k]) for k in keys}
 
-    def item(node, k, here):
-        if ("v", k) in node:
-            return node[("v", k)]
-        return build(node[("n", k)], here)
+    def item(n, here):
+        if isinstance(n, _B):
+            return build(n, here)
+        return n[1]
     return build(tree, origin)
 
 
@@ -119,9 +128,8 @@ def check_case(ctx, doc, mq_ast, mq_text, rel_asts, rel_texts, style, cls):
                 continue
             ctx.violation("projection-raised:%s" % type(got.exc).__name__, case, {"error": got.desc(), "style": style, "rel": rel_texts, "overlapping": overlapping})
             return
-        if overlapping and style != "FLAT":
-            ctx.cell("style_x_class", "%s overlapping(document-unmodified only)" % style)
-            continue
+        if overlapping:
+            ctx.cell("style_x_class", "%s overlapping" % style)
         if not asc and style != "FLAT":
             ctx.cell("style_x_class", "%s out-of-order(skipped)" % style)
             ctx.count("skipped_not_ascending")
